@@ -32,9 +32,31 @@ def corpus_runs():
     return jobs, impl, model, cases, base_impl
 
 
+def report_stage(out, tier, replay=None):
+    """the 'Account Balances' table of rp2_full_report.ods (per-account lines and per-holder totals) is part of what the
+    property speaks about: the reports generated for the C13/C19 checks (shared, cached run) are judged on that table"""
+    from harness import l5full
+    recs = l5full.judge_cases([replay]) if replay else l5full.run(tier)["records"]
+    n = 0
+    for rec in recs:
+        if rec.get("c13") is None:
+            continue
+        n += 1
+        for text, tags in rec["c13"]:
+            if set(tags) & {"totals", "balances"}:
+                out.violation("rp2_full_report.ods: " + text, rec["case"], tags=set(tags) | {"account-balances-table"})
+                break
+    return n
+
+
 def run(tier, build, replay=None):
     out = core.Outcome("C07", tier)
     proofs = core.check_proofs(build, "C07.v")
+    if replay and "assets" in replay:           # replay of a full-report case of the report stage
+        n = report_stage(out, tier, replay)
+        core.proofs_verdict(out, proofs, build, "C07.v")
+        out.coverage.update({"evaluations": n, "distinct_nontrivial": n, "rule": "replay of a full-report case"})
+        return out.finish(proofs, build)
     if replay:
         core.impl_env_setup()
         c, f, t = replay["case"], replay.get("from"), replay.get("to")
@@ -97,6 +119,8 @@ def run(tier, build, replay=None):
             mism += 1
             out.violation(f"model and implementation disagree on balances: {str(i['ok']['balances'])[:200]} / {str(m.get('balances'))[:200]}",
                           rep, tags={"correspondence"}, found_input=False)
+    n_reports = report_stage(out, tier) if not replay else 0
+    out.coverage["full_reports_judged_on_the_balances_table"] = n_reports
     core.proofs_verdict(out, proofs, build, "C07.v")
     out.coverage.update({
         "evaluations": len(data["jobs"]),
